@@ -600,7 +600,7 @@ func c08CVl(e ...c08CV) c08CV {
 func c08GridValues() []*c08CV {
 	vs := []c08CV{
 		c08CVi(1), c08CVi(200), c08CVi(0),
-		c08CVf(1.5), c08CVf(2.0),
+		c08CVf(1.5), c08CVf(2.0), c08CVf(7.5), c08CVf(-1.5),
 		c08CVb(true), c08CVb(false),
 		c08CVs("abc"), c08CVs("ab"), c08CVs(""), c08CVs("nil"), c08CVs("^a"), c08CVs("true"),
 		c08CVs("200"), c08CVs("1.5"), c08CVs("1"),
@@ -618,8 +618,8 @@ func c08GridSpanValues() []*c811Val {
 	vs := []c811Val{
 		c811N(),
 		c811S("abc"), c811S("200"), c811S("1.5"), c811S("true"), c811S(""), c811S("1"), c811S("xyz"),
-		c811I(1), c811I(200), c811I(0), c811I(2),
-		c811F(1.5), c811F(2.0), c811F(200), c811F(0.5),
+		c811I(1), c811I(200), c811I(0), c811I(2), c811I(7), c811I(8), c811I(-1), c811I(-2),
+		c811F(1.5), c811F(2.0), c811F(200), c811F(0.5), c811F(7.0), c811F(7.5),
 		c811B(true), c811B(false),
 	}
 	out := []*c811Val{nil}
@@ -999,9 +999,58 @@ func genC08Fallback(t *rapid.T) c08Case {
 	return c
 }
 
+// genC08NumBoundary is aimed at numeric comparisons at a threshold: a comparison operator whose Value is a
+// fractional float, an integral float or an int, against span values that are the integers and floats right
+// at, below and above it (trunc(Value), trunc(Value)+-1, Value itself), mostly without Datatype.
+func genC08NumBoundary(t *rapid.T) c08Case {
+	field := rapid.SampledFrom([]string{"a", "b", "root.a"}).Draw(t, "field")
+	cond := c08Cond{Field: field}
+	cond.Op = rapid.SampledFrom([]string{"=", "!=", "<", "<=", ">", ">="}).Draw(t, "op")
+	cond.Datatype = rapid.SampledFrom([]string{"", "", "", "", "int", "float"}).Draw(t, "dt")
+	th := rapid.SampledFrom([]float64{7.5, 1.5, 0.5, 2.5, 200.5, -1.5, -0.5, 7, 2, 0, -1}).Draw(t, "threshold")
+	var v c08CV
+	if th == math.Trunc(th) && rapid.Bool().Draw(t, "asint") {
+		v = c08CVi(int64(th))
+	} else {
+		v = c08CVf(th)
+	}
+	cond.Value = &v
+	tr := math.Trunc(th)
+	spanVal := rapid.Custom(func(t *rapid.T) c811Val {
+		d := float64(rapid.IntRange(-1, 1).Draw(t, "delta"))
+		switch rapid.IntRange(0, 5).Draw(t, "svk") {
+		case 0, 1, 2:
+			return c811I(int64(tr + d)) // integer-typed neighbour of the threshold
+		case 3:
+			return c811F(tr + d)
+		case 4:
+			return c811F(th)
+		default:
+			return c811S(strconv.FormatFloat(tr+d, 'f', -1, 64))
+		}
+	})
+	n := rapid.IntRange(1, 3).Draw(t, "nspans")
+	trace := c811Trace{Root: rapid.IntRange(-1, n-1).Draw(t, "root")}
+	name := strings.TrimPrefix(field, "root.")
+	for i := 0; i < n; i++ {
+		sp := c811Span{}
+		if rapid.IntRange(0, 5).Draw(t, fmt.Sprintf("has%d", i)) > 0 {
+			sp[name] = spanVal.Draw(t, fmt.Sprintf("sv%d", i))
+		}
+		trace.Spans = append(trace.Spans, sp)
+	}
+	rule := c08Rule{Scope: rapid.SampledFrom([]string{"", "span"}).Draw(t, "scope"), Conds: []c08Cond{cond}, Drop: true}
+	c := c08Case{Rules: []c08Rule{rule}, Trace: trace}
+	c.Rules = append(c.Rules, rapid.SliceOfN(rapid.Custom(genC08Rule), 0, 1).Draw(t, "more")...)
+	return c
+}
+
 func genC08(t *rapid.T) c08Case {
-	if rapid.IntRange(0, 4).Draw(t, "aimed") == 3 {
+	switch rapid.IntRange(0, 9).Draw(t, "aimed") {
+	case 3, 6:
 		return genC08Fallback(t)
+	case 8:
+		return genC08NumBoundary(t)
 	}
 	c := c08Case{}
 	c.Rules = rapid.SliceOfN(rapid.Custom(genC08Rule), 1, 5).Draw(t, "rules")
@@ -1013,9 +1062,9 @@ func genC08(t *rapid.T) c08Case {
 func TestC08(t *testing.T) {
 	vkit.Run(t, vkit.Spec[c08Case]{
 		ID:   "C08",
-		Rule: "rapid-generated rule lists (1-5 rules; scope \"\"/trace/span; 0-3 conditions over fields {a,b,c,root.a,root.b}, Field or Fields lists, ?.NUM_DESCENDANTS, has-root-span; all 15 operators x Datatype {\"\",string,int,float,bool} x Value {int,float,bool,string,numeric string,list,omitted}; outcome Drop / SampleRate N / downstream DynamicSampler and the documented precedence combinations; 1 case in 5 comes from a sub-generator aimed at Fields lists mixing span-level and root.-prefixed names on multi-span traces with span values drawn from {equal to Value, another value, absent}) written as a rules file, loaded and validated like refinery does (yaml.v3 + ValidateRules), against traces of 1-5 spans with/without root whose fields are absent or carry string/int64/float64/bool/nil. Oracle: independent three-valued interpreter of rules.md + rules_conditions.md; first matching rule, rate, keep (when not a coin), delegation compared with the downstream sampler alone; a disagreement is attributed to single conditions by probing one-condition samplers. The replay tier runs the exhaustive grid (15 operators x 5 datatypes x 22 values x 2 scopes x 19 span values on one-span traces). Non-trivial: >=2 rules and the documented match is not the first rule, or a condition on a field absent from some/all spans, or span scope with >=2 conditions. Distinct = distinct case JSON.",
+		Rule: "rapid-generated rule lists (1-5 rules; scope \"\"/trace/span; 0-3 conditions over fields {a,b,c,root.a,root.b}, Field or Fields lists, ?.NUM_DESCENDANTS, has-root-span; all 15 operators x Datatype {\"\",string,int,float,bool} x Value {int,float,bool,string,numeric string,list,omitted}; outcome Drop / SampleRate N / downstream DynamicSampler and the documented precedence combinations; 1 case in 10 comes from a sub-generator aimed at numeric thresholds (Value fractional/integral float or int against integer/float/string span values at trunc(Value), trunc(Value)+-1 and Value itself, mostly untyped), 1 case in 5 from a sub-generator aimed at Fields lists mixing span-level and root.-prefixed names on multi-span traces with span values drawn from {equal to Value, another value, absent}) written as a rules file, loaded and validated like refinery does (yaml.v3 + ValidateRules), against traces of 1-5 spans with/without root whose fields are absent or carry string/int64/float64/bool/nil. Oracle: independent three-valued interpreter of rules.md + rules_conditions.md; first matching rule, rate, keep (when not a coin), delegation compared with the downstream sampler alone; a disagreement is attributed to single conditions by probing one-condition samplers. The replay tier runs the exhaustive grid (15 operators x 5 datatypes x 24 values x 2 scopes x 25 span values on one-span traces). Non-trivial: >=2 rules and the documented match is not the first rule, or a condition on a field absent from some/all spans, or span scope with >=2 conditions. Distinct = distinct case JSON.",
 		Assumptions: []string{
-			"don't-care (not asserted, counted): ordering operators with Datatype bool; bool spellings other than true/false/1/0; integral floats or nil coerced to text; negative fractions and numeric-looking strings under Datatype int; untyped comparison of a number with a fractional, string or bool Value; in/not-in with a scalar Value, Datatype bool, a list of another type than the span value (untyped) or an unconvertible span value under not-in; Value that does not convert to the Datatype; SampleRate 0; not-exists on a root.-prefixed field when the trace has no root span (rules.md and the property statement contradict each other)",
+			"don't-care (not asserted, counted): ordering operators with Datatype bool; bool spellings other than true/false/1/0; integral floats or nil coerced to text; negative fractions and numeric-looking strings under Datatype int; untyped comparison of a number with a string or bool Value (an integer span value against a fractional float Value is compared as numbers: 7 < 7.5); in/not-in with a scalar Value, Datatype bool, a list of another type than the span value (untyped) or an unconvertible span value under not-in; Value that does not convert to the Datatype; SampleRate 0; not-exists on a root.-prefixed field when the trace has no root span (rules.md and the property statement contradict each other)",
 			"a rule whose documented match status is don't-care ends the comparison for that case; rules before it must still not match",
 			"absent field: 'If the field is not present, then the condition will not match' is applied per span for every operator except not-exists",
 			"CheckNestedFields is not generated; meta.* fields are not generated",
@@ -1035,7 +1084,7 @@ func TestC08(t *testing.T) {
 				"grid_cells_config_rejected": c08Stats.gridRejected,
 			}
 			if c08Stats.gridCells > 0 { // only the shard that ran the replay tier says so (the driver keeps the last non-numeric value)
-				m["grid_exhaustive"] = "one-span grid 15 operators x 5 datatypes x 22 Value forms x 2 scopes x 19 span values enumerated completely (exhaustive for this sub-domain only)"
+				m["grid_exhaustive"] = "one-span grid 15 operators x 5 datatypes x 24 Value forms x 2 scopes x 25 span values enumerated completely (exhaustive for this sub-domain only)"
 			}
 			return m
 		},
